@@ -52,7 +52,10 @@ KeepFrom(kept, rest, n) ==
        IN KeepFrom(IF v.sg = 0 \/ FitsAt(k2, MinScale, n) THEN k2 ELSE kept, Tail(rest), n)
 Keep(H, n) == KeepFrom(<<>>, H, n)
 
-EffMax(ms) == IF ms < MinScale THEN MinScale ELSE ms     \* a maximum below -10 can only mean -10
+EffMax(ms) == IF ms < MinScale THEN MinScale ELSE IF ms > TopScale THEN TopScale ELSE ms
+   \* a maximum below -10 can only mean -10, one above 20 only 20 (the documented range of MaxScale)
+(* parameters outside their documented ranges (MaxScale in -10..20, MaxSize > 0): no route has to accept them *)
+ExpoOutOfRange(ms, n) == ms < MinScale \/ ms > TopScale \/ n <= 0
 
 MinR(vals) == SetMin({vals[j].r : j \in 1..Len(vals)})
 MaxR(vals) == SetMax({vals[j].r : j \in 1..Len(vals)})
